@@ -255,6 +255,19 @@ def build_channel_specs():
         S.append(Spec("asymmetric_depolarize_dict%d" % n_, (2,) * n_, asym_dict(n_),
                       lambda p: cirq.asymmetric_depolarize(error_probabilities=dict(p[0])),
                       lambda p, n_=n_: asym_dict_ref(p, n_), kind="channel"))
+    # a gate (or a channel) applied with some probability, else nothing: gate.with_probability(p)
+    def rg_params(rng):
+        return (pick_exp(rng), pick_prob(rng))
+    S.append(Spec("random_gate_X", (2,), rg_params, lambda p: cirq.XPowGate(exponent=p[0]).with_probability(p[1]),
+                  lambda p: [k for k in (math.sqrt(max(1 - p[1], 0.0)) * G.I2, math.sqrt(p[1]) * G.eigen_gate("XPow", p[0])) if np.abs(k).max() > 0],
+                  kind="channel"))
+    S.append(Spec("random_gate_CZ", (2, 2), rg_params, lambda p: cirq.CZPowGate(exponent=p[0]).with_probability(p[1]),
+                  lambda p: [k for k in (math.sqrt(max(1 - p[1], 0.0)) * np.eye(4, dtype=complex), math.sqrt(p[1]) * G.eigen_gate("CZPow", p[0]))
+                             if np.abs(k).max() > 0], kind="channel"))
+    S.append(Spec("random_gate_of_channel", (2,), lambda rng: (pick_prob(rng), pick_prob(rng)),
+                  lambda p: cirq.amplitude_damp(p[0]).with_probability(p[1]),
+                  lambda p: [k for k in [math.sqrt(max(1 - p[1], 0.0)) * G.I2] + [math.sqrt(p[1]) * k_ for k_ in G.amplitude_damp(p[0])]
+                             if np.abs(k).max() > 0], kind="channel"))
     for d in (2, 3):
         S.append(Spec("reset_d%d" % d, (d,), lambda rng: (), lambda p, d=d: cirq.ResetChannel(dimension=d),
                       lambda p, d=d: G.reset(d), kind="channel"))
